@@ -4,11 +4,16 @@ their bounds and assumptions (copied into every evidence file)."""
 COMMON_ASSUMPTIONS = [
     "bounded model checking: the verdict covers every value of every symbolic input within the stated bounds and nothing outside them; "
     "Kani unwinding assertions are enabled, so a too-small loop bound fails the run instead of truncating it",
+    "replay: a solver-found violation is confirmed natively (guard off, no stubs, real rust_decimal and hash containers) by walking the harness's "
+    "bounded input space (gens::native_search) until the real code fails an assertion; the script of that run is the replay file",
     "stub: tracing macros are switched off (DefaultCallsite::interest -> never, __is_enabled -> false, Event::dispatch -> nop)",
     "stub: rust_decimal arithmetic (+ - * / cmp checked_*) is replaced by an exact-rational model (|numerator| < 2^28, denominator < 2^16, "
     "leaving that range fails the run); the real library's 28-digit rounding is outside every claim",
     "stub: chrono::Utc::now returns a fixed instant (time_received is not the subject of any property)",
     "harness values are dropped with mem::forget (drop glue is not part of any claim)",
+    "third-party crate replaced for verification builds: smol_str 0.3.6 vendored with a leaking heap variant, typed clone, content-only equality and "
+    "element-wise inline construction (kani/vendor/smol_str; behaviour-preserving except that heap strings leak)",
+    "stub: alloc::fmt::format returns an empty string (message texts are never the subject of a property)",
 ]
 HOOK_ASSUMPTIONS = [
     "hook (--cfg barter_rs_barter_rs_verif): fnv::FnvHashMap / indexmap::IndexMap / FnvIndexMap / FnvIndexSet are replaced by an inline "
@@ -95,6 +100,7 @@ PROPS["C18"] = {
         "barter::statistic::metric::drawdown::mean::MeanDrawdownGenerator::{update, generate}",
         "barter::statistic::algorithm::welford_online::calculate_mean::<Decimal> / ::<i64>",
         "barter::statistic::metric::drawdown::Drawdown::duration",
+        "barter::statistic::summary::asset::TearSheetAssetGenerator::{init, update_from_balance} (feeding of the three generators)",
     ],
     "bounds": {
         "quick": "generator: one step from an ARBITRARY state (peak in 1..7, trough in -7..peak, three ordered timestamps < 8 s) with a point in -7..7; "
@@ -103,7 +109,7 @@ PROPS["C18"] = {
         "thorough": "quick + generator step with 4-bit values + curve of 5 points with 3-bit values",
     },
     "outside": ["curves whose running maximum is not positive (the property's own precondition)",
-                "the feeding of the generators by TearSheetGenerator / TearSheetAssetGenerator (update_from_position is exercised under C16)"],
+                "the feeding of the PnL generators by TearSheetGenerator::update_from_position (pnl_raw bookkeeping is checked under C16)"],
     "assumptions": ["mean duration: the implementation's integer-millisecond truncating recurrence is asserted as such (plus: result lies between its operands)",
                     "a drawdown's start is the FIRST time its running maximum was attained (equal later values do not move it)"],
     "tiers": {
@@ -238,23 +244,26 @@ PROPS["C05"] = {
 }
 
 PROPS["C09"] = {
-    "hook": False,
+    "hook": True,
     "functions": [
         "barter::engine::state::asset::AssetState::update_from_balance (+ TearSheetAssetGenerator::update_from_balance)",
         "barter::engine::state::instrument::data::DefaultInstrumentMarketData::process(&MarketEvent) - trade and top-of-book arms",
+        "barter::engine::state::order::Orders::update_from_order_snapshot - the ten C01 cells whose input carries exchange-reported open-order data "
+        "(snapshot Open / CancelInFlight(Some) on every pre-state kind), for the 'never moves back to an older exchange timestamp' assertion",
     ],
     "bounds": {
         "quick": "one inductive step from an arbitrary held (timestamp 0..3 s, value) or nothing, with an arbitrary message (timestamp 0..3 s, value): "
                  "balances 0..7, trade prices 1..7, top-of-book levels with either side possibly missing; unwind 26",
         "thorough": "same as quick",
     },
-    "outside": ["the order arm (covered by C01's timestamp-monotonicity assertion in every cell)",
-                "EngineState::update_from_account routing, incl. full account snapshots item by item (engine-level)"],
+    "outside": ["EngineState::update_from_account routing, incl. full account snapshots item by item (engine-level)"],
     "assumptions": ["connector contract (true for both L1 connectors in the tree): an L1 event's last_update_time equals its exchange time",
                     "stub: Decimal::from_f64 defined on small non-negative integers"],
     "tiers": {
-        "quick": {"filters": ["c09_q_", "c09_twin_"], "jobs": 4, "harness_timeout_s": 900, "total_timeout_s": 2400},
-        "thorough": {"filters": ["c09_"], "jobs": 4, "harness_timeout_s": 3000, "total_timeout_s": 9000},
+        "quick": {"filters": ["c09_q_", "c09_twin_", "c01_q_untracked_snap_open", "c01_q_oif_snap_open", "c01_q_open_snap_open", "c01_q_cifn_snap_open",
+                              "c01_q_cifs_snap_open", "c01_q_untracked_snap_cifs", "c01_q_oif_snap_cifs", "c01_q_open_snap_cifs", "c01_q_cifn_snap_cifs",
+                              "c01_q_cifs_snap_cifs"], "jobs": 14, "harness_timeout_s": 900, "total_timeout_s": 2400, "mem_gb": 8},
+        "thorough": {"filters": ["c09_", "_snap_open", "_snap_cifs"], "jobs": 14, "harness_timeout_s": 3000, "total_timeout_s": 9000, "mem_gb": 8},
     },
 }
 
@@ -281,9 +290,63 @@ PROPS["C04"] = {
     },
 }
 
+PROPS["C03"] = {
+    "hook": True,
+    "functions": [
+        "barter::engine::action::send_requests::SendRequests::send_request for Engine<(), Recorder, Links, Script, Gate> (harness types for state / links / strategy / risk)",
+        "barter::engine::state::order::in_flight_recorder::InFlightRequestRecorder for EngineState::{record_in_flight_opens, record_in_flight_open} "
+        "+ InstrumentStates::instrument_index_mut + Orders::record_in_flight_open",
+    ],
+    "bounds": {
+        "quick": "send_request: one open request with a symbolic exchange index in {0, 1, 2 = unknown} against 2 execution links with a SYMBOLIC fault "
+                 "pattern each {healthy, closed, unhealthy, missing}; in-flight routing: literal 2-instrument engine state, request for a symbolic instrument; unwind 10",
+        "thorough": "same as quick",
+    },
+    "outside": ["the batch actions send_requests / generate_algo_orders / close_positions / cancel_orders (partition into sent / errors, refused requests, "
+                "record-in-flight of exactly the sent ones): attempted in drafts/c03_requests_full.rs; one request through send_requests already exhausts 20 GB "
+                "(Vec<(request, EngineError)> of solver-unknown length; every EngineError owns a String whose deallocation CBMC explores on unknown pointers)",
+                "Engine::process gating on TradingState, commands, early return on Shutdown / fatal errors",
+                "per-order in-flight state transitions (checked under C01: record_in_flight_open / record_in_flight_cancel on every pre-state)"],
+    "assumptions": ["harness types: recording Tx whose send() fails per the fault pattern, link table implementing ExecutionTxMap"],
+    "tiers": {
+        "quick": {"filters": ["c03_q_", "c03_twin_"], "jobs": 3, "harness_timeout_s": 1200, "total_timeout_s": 3000, "mem_gb": 12},
+        "thorough": {"filters": ["c03_"], "jobs": 3, "harness_timeout_s": 3000, "total_timeout_s": 9000, "mem_gb": 12},
+    },
+}
+
+PROPS["C19"] = {
+    "hook": False,
+    "functions": [
+        "barter_execution::order::Order::<ExchangeIndex, InstrumentIndex, ActiveOrderState>::to_request_cancel",
+        "barter::strategy::close_positions::build_ioc_market_order_to_close_position",
+    ],
+    "bounds": {
+        "quick": "to_request_cancel on an arbitrary order of each active-state kind (symbolic key indices, side, price, quantity, open timestamp / filled "
+                 "quantity); build_ioc_market_order_to_close_position on an arbitrary open position (2-bit quantities), symbolic exchange / instrument "
+                 "index and price; unwind 10",
+        "thorough": "same as quick",
+    },
+    "outside": ["InstrumentStates::filtered / filtered_mut (the filter predicates) and Engine::action(Command::CancelOrders | ClosePositions) over a whole "
+                "engine state incl. 'repeating a cancel command requests nothing new' at engine level - engine-level harnesses (Either-typed iterator "
+                "chains over maps of instrument states) did not fit; only the two per-order / per-position kernels are claimed",
+                ],
+    "assumptions": [],
+    "tiers": {
+        "quick": {"filters": ["c19_q_", "c19_twin_"], "jobs": 6, "harness_timeout_s": 900, "total_timeout_s": 2400},
+        "thorough": {"filters": ["c19_"], "jobs": 6, "harness_timeout_s": 3000, "total_timeout_s": 9000},
+    },
+}
+
 
 # ---- MANIFEST texts -------------------------------------------------------------------------------------
 LEVEL = {
+ "C03": ("The single-request delivery primitive (SendRequests::send_request) under a symbolic per-exchange link fault pattern and a symbolic "
+         "(possibly unknown) exchange index: Ok <=> delivered exactly once to exactly that exchange's link; gone / missing link => fatal error and no "
+         "delivery; unhealthy link => recoverable error and no delivery. Plus: EngineState records an in-flight open on exactly the named instrument.",
+         "Kernel-level only: the batch actions, risk refusal reporting and trading-state gating are outside the claim (they did not fit)."),
+ "C19": ("The two per-item kernels the commands are built from: Order::to_request_cancel (none iff already being cancelled; client order id always, exchange "
+         "order id iff known) and build_ioc_market_order_to_close_position (opposite side, equal quantity, IOC market order, same instrument).",
+         "Kernel-level only: the instrument filter and the engine action are outside the claim."),
  "C05": ("One inductive step of the real OrderBookSide::upsert (both sides) from an arbitrary valid side with a concrete level count against an association "
          "list with set/delete semantics (strict order, no duplicate, no zero amount, every price's amount), plus OrderBook::update / snapshot and the "
          "derived prices on small books.",
